@@ -171,7 +171,9 @@ func (h *UnifiedWorkloadHandler) fetchMatchedRollout(obj client.Object) (*appsv1
 		if !rollout.DeletionTimestamp.IsZero() {
 			continue
 		}
-		if rollout.Status.Phase == appsv1beta1.RolloutPhaseDisabled {
+		// a Rollout the user has disabled is still finalising until its phase says so, but it will
+		// never drive a new release
+		if rollout.Spec.Disabled || rollout.Status.Phase == appsv1beta1.RolloutPhaseDisabled {
 			klog.Infof("Disabled rollout(%s/%s) fetched when fetching matched rollout", rollout.Namespace, rollout.Name)
 			continue
 		}
